@@ -311,9 +311,10 @@ PROPS["C10"] = {
         I("c12::c10_ws_block2", bounds="'/*' + 2 free chars", termination=_SCANNERS, est_gb=6, mem_gb=16),
         I("c12::c10_ws_star2", bounds="'/**' + 2 free chars", termination=_SCANNERS, est_gb=6, mem_gb=16),
         I("c12::c10_ws_line2", bounds="'//' + 2 free chars", termination=_SCANNERS, est_gb=6, mem_gb=16),
-        I("c12::c10_ws_linemb", "thorough", bounds="'//' + a 3-byte char + 1 free char", termination=_SCANNERS, est_gb=8, mem_gb=16),
+        I("c12::c10_ws_linemb", "thorough", bounds="'//' + a 3-byte char + 1 free char", termination=_SCANNERS, est_gb=10,
+          mem_gb=20, timeout_s=3600, no_cover=["newline where none is allowed"]),
         I("c12::c10_ws_linemb3", "thorough", bounds="'//' + a 3-byte char + 2 free chars", termination=_SCANNERS, est_gb=16,
-          mem_gb=30, timeout_s=7200),
+          mem_gb=30, timeout_s=7200, no_cover=["newline where none is allowed"]),
         I("c12::c10_ws_witness", bounds="reachability twin ('/*' + 2 free chars)", expect_fail=True, est_gb=6, mem_gb=16),
         I("c12::c10_ws_block3", "thorough", bounds="'/*' + 3 free chars", termination=_SCANNERS, est_gb=10, mem_gb=16),
         I("c12::c10_ws_star3", "thorough", bounds="'/**' + 3 free chars", termination=_SCANNERS, est_gb=10, mem_gb=16),
